@@ -1,4 +1,5 @@
 import McpModel.ClientStream.MonLemmas
+import McpModel.ClientStream.ScnOK
 import McpModel.ClientStream.LoopLemmas
 /-!
 # Bridge, part 1: one response body
@@ -6,43 +7,13 @@ import McpModel.ClientStream.LoopLemmas
 What the model's `processStream` makes of the body of one exchange — the first `cut` bytes of what the
 scripted server serves from log item `from` on — expressed in the vocabulary of the monitor: the
 completely received items `(items.drop from).take (ccount …)`, their labels, ids and retry hints.
-Hypotheses on the scenario: `ScnOK` (what the harness's scenarios satisfy; decidable, see the
-non-vacuity example in `Bridge.lean`).
+Hypotheses on the scenario: `ScnOK` (`ScnOK.lean`; decidable, evaluated by the driver on every `scn`
+record; non-vacuity examples in `Bridge.lean`).
 -/
 namespace ClientStream
 open Generated.ClientStream
 
 variable {L : Type}
-
-/-! ### well-formed scenarios -/
-
-/-- the block (non-blank lines) an item's bytes consist of -/
-def itemBlock (it : LItem L) : Block := (splitLines it.bytes).1.dropLast
-
-/-- the item carries a message: `processStream` hands its data to the decoder -/
-def carries (it : LItem L) : Bool :=
-  decide (it.ev.data ≠ [] ∧ ¬ (it.ev.name ≠ [] ∧ it.ev.name ≠ messageName))
-
-/-- a log item is what it says: its bytes are one well-formed block that denotes its event; it
-carries a message iff it is labelled as one, and the message then decodes to its label -/
-structure ItemOK (s : Scn L) (it : LItem L) : Prop where
-  bytes : it.bytes = serializeLines (blockLines (itemBlock it))
-  good : ∀ l ∈ itemBlock it, goodLine l = true
-  ev : eventOf (itemBlock it) = it.ev
-  raw : it.raw = true → it.ev = {}
-  lab : carries it = (s.lab.isNotif it.label || s.lab.isReply it.label)
-  dec : carries it = true → s.cfg.decode it.ev.data = some it.label
-  noReplySa : s.sa = true → s.lab.isReply it.label = false
-
-/-- the scenarios of a faithful server (C08's guarantee as far as the client depends on it) -/
-structure ScnOK (s : Scn L) : Prop where
-  item : ∀ it ∈ s.items, ItemOK s it
-  /-- event ids are pairwise distinct -/
-  idsDistinct : s.items.Pairwise (fun a b => a.ev.id ≠ [] → a.ev.id ≠ b.ev.id)
-  /-- a server with an event store gives every message an id; one without gives none -/
-  idsAllOrNone : (∀ it ∈ s.items, carries it = true → it.ev.id ≠ []) ∨ (∀ it ∈ s.items, it.ev.id = [])
-  /-- nothing follows the call's response on its stream -/
-  replyLast : s.items.Pairwise (fun a b => s.lab.isReply a.label = true → carries b = false)
 
 /-! ### the byte layer -/
 
